@@ -48,6 +48,17 @@ def run(tier):
                 ck.fail("%s: %s" % (ev["e"], why), dict(rej, trace=tr, calls=len(prev)))
             else:
                 ck.fail("randomised entry point missing from the recording or trace rejected", dict(rej, trace=tr))
+        else:
+            def _corrupt_rng(evs):
+                last = {}
+                for e in evs:
+                    if e.get("ev") == "draw":
+                        if e["e"] in last:
+                            e["v"] = list(last[e["e"]])
+                            return "one call returns the value of the previous call of the same entry point"
+                        last[e["e"]] = e["v"]
+                return None
+            binding_selftest(ck, "Rng", "Rng_%s" % cfg, tr, _corrupt_rng, "rng trace " + cfg, timeout=3000)
         nentries = max(nentries, len(names))
     ck.cov["evaluations"] = total_ev
     if not ck.cov["distinct_nontrivial"]:
